@@ -415,3 +415,25 @@ Proof.
     pose proof (p_out _ _ P) as Ho. unfold pending_out in Ho.
     destruct (a_ph s); try discriminate. rewrite app_nil_r in Ho. exact Ho.
 Qed.
+
+(* ---------- statements in the form used by Properties/C24.v ---------- *)
+Lemma partial_all_schedules : forall poolsize cands nflush sch,
+  (poolsize = 0 \/ 0 < nflush) ->
+  let s := run (init poolsize cands nflush) sch in
+  quiescent s = true ->
+  (forall x, count_occ Nat.eq_dec (emitted (out s)) x = count_occ Nat.eq_dec cands x) /\
+  nil_count (out s) = 1.
+Proof.
+  intros p c n sch H s Hq. split.
+  - apply candidates_exactly_once; assumption.
+  - apply end_exactly_once; assumption.
+Qed.
+
+Lemma full_refuted :
+  exists poolsize cands nflush sch,
+    let s := run (init poolsize cands nflush) sch in
+    quiescent s = true /\ nil_last (out s) = false.
+Proof.
+  exists 1, [1], 1, [0; 1; 0; 0; 0; 1].
+  exact (conj (proj1 order_refuted) (proj2 (proj2 order_refuted))).
+Qed.
